@@ -36,13 +36,13 @@ import (
 func init() { register("C10", genC10) }
 
 type c10Case struct {
-	name   string // Type.Ctor
-	deep   bool
-	mk     func() (orig, cp interface{}) // pointers to structs of the same type
-	same   func(orig, cp interface{}) string
-	use    func(cp interface{})
-	mutate func(cp interface{}) // deep copies: an additional mutation through the public API
-	docShared bool           // the constructor is DOCUMENTED as sharing buffers / not concurrently usable
+	name      string // Type.Ctor
+	deep      bool
+	mk        func() (orig, cp interface{}) // pointers to structs of the same type
+	same      func(orig, cp interface{}) string
+	use       func(cp interface{})
+	mutate    func(cp interface{}) // deep copies: an additional mutation through the public API
+	docShared bool                 // the constructor is DOCUMENTED as sharing buffers / not concurrently usable
 }
 
 func c10Keyed(b byte) *sampling.KeyedPRNG {
@@ -334,10 +334,16 @@ func genC10(c *Ctx) {
 	add(c10Case{name: "ring.Ring.AtLevel", mk: func() (interface{}, interface{}) { return rQ, rQ.AtLevel(1) },
 		use: func(x interface{}) { r := x.(*ring.Ring); p := r.NewPoly(); r.NTT(p, p) }})
 	add(c10Case{name: "ring.UniformSampler.AtLevel", docShared: true,
-		mk:  func() (interface{}, interface{}) { o := ring.NewUniformSampler(c10Keyed(3), rQ); return o, o.AtLevel(1).(*ring.UniformSampler) },
+		mk: func() (interface{}, interface{}) {
+			o := ring.NewUniformSampler(c10Keyed(3), rQ)
+			return o, o.AtLevel(1).(*ring.UniformSampler)
+		},
 		use: func(x interface{}) { x.(*ring.UniformSampler).ReadNew() }})
 	add(c10Case{name: "ring.UniformSampler.WithPRNG",
-		mk:  func() (interface{}, interface{}) { o := ring.NewUniformSampler(c10Keyed(3), rQ); return o, o.WithPRNG(c10Keyed(4)) },
+		mk: func() (interface{}, interface{}) {
+			o := ring.NewUniformSampler(c10Keyed(3), rQ)
+			return o, o.WithPRNG(c10Keyed(4))
+		},
 		use: func(x interface{}) { x.(*ring.UniformSampler).ReadNew() }})
 	add(c10Case{name: "ring.GaussianSampler.AtLevel", docShared: true,
 		mk: func() (interface{}, interface{}) {
@@ -591,6 +597,8 @@ func genC10(c *Ctx) {
 			c.Probe("no_panic/"+cs.name, "-", "C10-panic-"+cs.name, "panic")
 		}
 	}
+
+	c10CopyInto(c)
 
 	// ---- named candidates ----
 	// (1) Encryptor.ShallowCopy after WithPRNG: is the installed source of c1 kept?
